@@ -32,7 +32,7 @@ ASSUMPTIONS = [
     "factorization: values of non-summed variables are the event's values; subscripts are literal",
 ]
 BUDGET = {
-    "quick": dict(examples=350, shards=16, seconds=200),
+    "quick": dict(examples=250, shards=16, seconds=200),
     "thorough": dict(examples=5000, shards=16, seconds=2400),
 }
 OPS = ["minimize", "simplify", "ancestors", "components", "factor_form", "factorization"]
@@ -249,7 +249,7 @@ def check(case, ignore_regions=False) -> Outcome:
             if REGION_REFLEXIVE in regions and "reflexive-subscript" in labels:
                 out.excluded = REGION_REFLEXIVE
                 return out
-            if REGION_PLUS_FACT in regions and "plus-mark" in labels:
+            if REGION_PLUS_FACT in regions and plus_value_propagated(g, items):
                 out.excluded = REGION_PLUS_FACT
                 return out
             # the factorisation is applied to SIMPLIFY's output, as in ctfTRu (its callers never pass raw events)
